@@ -11,6 +11,9 @@ import (
 
 var Big70 = new(big.Int).Lsh(big.NewInt(1), 70)
 
+// Near63: fits a signed 64-bit word, but its product with a small numerator does not (word-size shortcuts)
+var Near63 = big.NewInt(9000000000000000000)
+
 type Amount struct {
 	Mon *Expr
 	All *Expr
@@ -28,7 +31,7 @@ type Bounds struct {
 func X(n int64) *Expr { return Mon("X", n) }
 
 func (b Bounds) Amounts() []Amount {
-	out := []Amount{{Mon: X(7)}, {Mon: X(0)}, {All: Asset("X")}, {Mon: X(100)}, {Mon: MonBig(Asset("X"), Big70)}}
+	out := []Amount{{Mon: X(7)}, {Mon: X(0)}, {All: Asset("X")}, {Mon: X(100)}, {Mon: MonBig(Asset("X"), Big70)}, {Mon: MonBig(Asset("X"), Near63)}}
 	if b.Wide {
 		out = append(out, Amount{Mon: X(1)}, Amount{Mon: Add(X(7), X(1))}, Amount{Mon: Sub(X(7), X(1))}, Amount{Mon: Sub(X(1), X(7))})
 	}
@@ -451,8 +454,64 @@ func (b *Block) Program(i int) *Program {
 	return p
 }
 
+// ProgBlock: any enumerable family of programs.
+type ProgBlock interface {
+	Size() int
+	Program(i int) *Program
+	Describe() string
+}
+
+func (b *Block) Describe() string {
+	return fmt.Sprintf("%s: amounts=%d x sources=%d x dests=%d x slots=%d = %d", b.Name, len(b.Amounts), len(b.Sources), len(b.Dests), b.slots(), b.Size())
+}
+
+// SeqBlock: every sequence of exactly Len statements over an alphabet of simple statements (interaction across statements).
+type SeqBlock struct {
+	Name     string
+	Alphabet []*Stmt
+	Len      int
+}
+
+func (b *SeqBlock) Size() int {
+	n := 1
+	for i := 0; i < b.Len; i++ {
+		n *= len(b.Alphabet)
+	}
+	return n
+}
+
+func (b *SeqBlock) Program(i int) *Program {
+	p := &Program{}
+	for k := 0; k < b.Len; k++ {
+		p.Stmts = append(p.Stmts, b.Alphabet[i%len(b.Alphabet)])
+		i /= len(b.Alphabet)
+	}
+	p.AutoVars()
+	return p
+}
+
+func (b *SeqBlock) Describe() string {
+	return fmt.Sprintf("%s: all sequences of %d statements over %d simple statements = %d", b.Name, b.Len, len(b.Alphabet), b.Size())
+}
+
+// simpleSends: sends of small amounts between plain accounts (routes that can repeat and refill each other)
+func simpleSends() []*Stmt {
+	var out []*Stmt
+	for _, amt := range []int64{50, 3} {
+		for _, src := range []string{"a", "b", "world"} {
+			for _, dst := range []string{"a", "b", "c"} {
+				if src == dst {
+					continue
+				}
+				out = append(out, &Stmt{K: StSend, Mon: X(amt), Src: VSource{Src: SrcAcc(Acc(src))}, Dst: DstAcc(Acc(dst))})
+			}
+		}
+	}
+	return out
+}
+
 type Space struct {
-	Blocks []*Block
+	Blocks []ProgBlock
 }
 
 func (s *Space) Size() int {
@@ -476,7 +535,7 @@ func (s *Space) Program(i int) *Program {
 func (s *Space) Describe() []string {
 	var out []string
 	for _, b := range s.Blocks {
-		out = append(out, fmt.Sprintf("%s: amounts=%d x sources=%d x dests=%d x slots=%d = %d", b.Name, len(b.Amounts), len(b.Sources), len(b.Dests), b.slots(), b.Size()))
+		out = append(out, b.Describe())
 	}
 	return out
 }
@@ -497,7 +556,7 @@ func StandardSpace(thorough bool) *Space {
 	vars := Bounds{SrcDepth: 1, DstDepth: 1, Vars: true}
 	deep := Bounds{SrcDepth: 2, DstDepth: 2}
 	sp := &Space{}
-	add := func(b *Block) { sp.Blocks = append(sp.Blocks, b) }
+	add := func(b ProgBlock) { sp.Blocks = append(sp.Blocks, b) }
 	add(&Block{Name: "shallow", Amounts: base.Amounts(), Sources: base.Sources(), Dests: base.Dests()})
 	add(&Block{Name: "vars-src", Amounts: vars.Amounts(), Sources: vars.Sources(), Dests: vars.dstLeaves()})
 	add(&Block{Name: "vars-dst", Amounts: vars.Amounts(), Sources: vs(vars.srcLeaves()), Dests: vars.Dests()})
@@ -505,6 +564,7 @@ func StandardSpace(thorough bool) *Space {
 	add(&Block{Name: "two-stmt-dst", Amounts: base.Amounts()[:3], Sources: vs(base.srcLeaves()), Dests: base.Dests(), Extras: base.Extras()[:4]})
 	add(&Block{Name: "deep-src", Amounts: base.Amounts()[:3], Sources: vs(deep.sourcesAt(2)), Dests: base.dstLeaves()[:2]})
 	add(&Block{Name: "deep-dst", Amounts: base.Amounts()[:3], Sources: vs(base.srcLeaves()[:4]), Dests: deep.Dests()})
+	add(&SeqBlock{Name: "three-sends", Alphabet: simpleSends(), Len: 3})
 	if thorough {
 		wide := Bounds{SrcDepth: 1, DstDepth: 1, Wide: true, ThreeWay: true, SecondAsset: true, Vars: true}
 		add(&Block{Name: "wide", Amounts: wide.Amounts(), Sources: wide.Sources(), Dests: wide.Dests()})
